@@ -154,6 +154,18 @@ func (C11) Generate(c *Ctx, r *Rand, index int) *Scenario {
 			"- &a 1\n- *a\n- [*a, *a]\n", "a: |\n  block\n  text\nb: >-\n  folded\n  text\n", "--- !tag\na: 1\n...\n---\nb: 2\n", "base: &base\n  x: 1\nderived:\n  <<: *base\n  y: 2\nlist:\n  - <<: [*base]\n", "%YAML 1.1\n---\na: 1\n", "{a: 1, b: [1, {c: d}]}\n", "? a\n", "- - - 1\n    - 2\n", "a: 0o17\nb: 0x1F\nc: 1_000\nd: 2001-12-14t21:59:43.10-05:00\ne: ~\n",
 		})
 	}
+	if (fi.Name == "yaml" || fi.Name == "json") && sc.MetaString("special") == "" && rs.Chance(1, 40) {
+		// deep nesting: two equal, deeply nested values (must stay fast: no resource finding is attached to this class)
+		depth := rs.Range(20, 60)
+		open, close := "{\"k\": ", "}"
+		if rs.Chance(1, 3) {
+			open, close = "[", "]"
+		}
+		nest := strings.Repeat(open, depth) + "1" + strings.Repeat(close, depth)
+		text = "{\"id\": \"" + id + "\", \"a\": [" + nest + ", 2], \"b\": [" + nest + "], \"c\": " + nest + "}\n"
+		sc.Meta["input"] = "deep-nesting"
+		sc.Meta["deep"] = true
+	}
 	if fi.Name == "lua" && rs.Chance(1, 200) {
 		// Lua input is a program: one that does not end
 		text = Pick(rs, []string{"while true do end\n", "local function f() return f() end\nreturn f()\n", "repeat until false\n"})
@@ -180,7 +192,7 @@ func (C11) Generate(c *Ctx, r *Rand, index int) *Scenario {
 	data := []byte(text)
 	rd := r.Fork("damage")
 	nDamage := rd.Weighted([]int{25, 50, 18, 7})
-	if sc.MetaString("special") != "" {
+	if sc.MetaString("special") != "" || sc.MetaBool("deep") {
 		nDamage = 0
 	}
 	var ds []damage
@@ -196,24 +208,28 @@ func (C11) Generate(c *Ctx, r *Rand, index int) *Scenario {
 
 	// expression
 	var expr string
-	switch rs.Weighted([]int{30, 40, 10, 20, 12}) {
-	case 4:
-		// token soup: a random sequence over the lexer's vocabulary
-		n := rs.Range(2, 12)
-		var parts []string
-		for i := 0; i < n; i++ {
-			parts = append(parts, Pick(rs, exprTokens))
+	if sc.MetaBool("deep") && rs.Chance(2, 3) {
+		expr = Pick(rs, []string{".a - .b", ".a == .b", ".a + .b", "[.c] - [.c]", ".c == .c", ".a | unique", "[.c, .c] | unique", ".a | contains(.b)", ".c * .c", "[.c, .c] | sort", ".. | length", "[..] | length", ".a | group_by(.)", ".c | to_json | from_json", "explode(.)", ".c | path(..)", "del(..)", ".c |= .", ".. style=\"flow\"", "to_entries", ".a - .a"})
+	} else {
+		switch rs.Weighted([]int{30, 40, 10, 20, 12}) {
+		case 4:
+			// token soup: a random sequence over the lexer's vocabulary
+			n := rs.Range(2, 12)
+			var parts []string
+			for i := 0; i < n; i++ {
+				parts = append(parts, Pick(rs, exprTokens))
+			}
+			expr = strings.Join(parts, Pick(rs, []string{" ", " ", ""}))
+		case 0:
+			expr = GenExpr(r.Fork("expr")).Combined()
+		case 1:
+			expr = Pick(rs, c11Probes)
+		case 2:
+			expr = Pick(rs, c11Probes) + " | " + Pick(rs, c11Probes)
+		default:
+			base := fi.IDPath
+			expr = Pick(rs, []string{base, ".", base + " | " + Pick(rs, c11Probes), ".. | " + Pick(rs, c11Probes), "[" + Pick(rs, c11Probes) + "]", Pick(rs, c11Probes) + ", " + Pick(rs, c11Probes)})
 		}
-		expr = strings.Join(parts, Pick(rs, []string{" ", " ", ""}))
-	case 0:
-		expr = GenExpr(r.Fork("expr")).Combined()
-	case 1:
-		expr = Pick(rs, c11Probes)
-	case 2:
-		expr = Pick(rs, c11Probes) + " | " + Pick(rs, c11Probes)
-	default:
-		base := fi.IDPath
-		expr = Pick(rs, []string{base, ".", base + " | " + Pick(rs, c11Probes), ".. | " + Pick(rs, c11Probes), "[" + Pick(rs, c11Probes) + "]", Pick(rs, c11Probes) + ", " + Pick(rs, c11Probes)})
 	}
 	outFmt := Pick(rs, append([]string{"yaml", "json", "auto"}, OutputFormats...))
 	var argv []string
